@@ -134,7 +134,9 @@ fn apply(xml: &str, nodes: &[NodeInfo], ops: &J) -> Option<String> {
     let n = op["n"].as_u64()? as usize - 1;
     edits.push(edit(xml, nodes, op["f"].as_str()?, n)?);
   }
-  edits.sort_by(|a, b| b.0 .0.cmp(&a.0 .0));
+  // from the end of the text to its start; of two edits that begin at the same place (an insertion behind one element
+  // and the removal of the element that follows it directly) the one that covers text goes first
+  edits.sort_by(|a, b| b.0 .0.cmp(&a.0 .0).then(b.0 .1.cmp(&a.0 .1)));
   let mut text = xml.to_string();
   for ((s, e), rep) in edits {
     text.replace_range(s..e, &rep);
